@@ -979,3 +979,104 @@ def _c20_per_sig(ps, ctr):
         fails.append('sort_callsigs-invalid-accepted: %s accepts *%s **%s listed as invalid' % (sig, a, k))
         break
     return fails
+
+
+# ----------------------------------------------------------------------------- C19
+def c19(req, ra, ctr):
+    from . import real_mod
+    if req[0] != 'partialsig':
+        return []
+    _, n, kw, ps = req
+    F = [(p[0], p[1], p[2]) for p in ps]
+    fails = []
+    if ra[0] == 'ok' and ra[1] and ra[1][0] == 'plain-and-auto-differ':
+        return ['plain-and-auto-differ: signatures.signature and sigtools.signature disagree on partial(%s, %d args, %s): %s' % (
+            core.fmt_params(F), n, dict(kw), ra[1][1:])]
+    if any(q[1] == 'po' and q[0] in dict(kw) for q in F):
+        ctr['c19:outside-quantifier'] += 1     # a bound keyword names a positional-only parameter: version-dependent
+        return []
+    f, p = real_mod.make_partial(ps, n, kw)
+
+    def really(m, K):
+        try:
+            p(*([0] * m), **{k: 0 for k in K})
+        except TypeError:
+            return False
+        return True
+    bound = dict(kw)
+    if ra[0] == 'err':
+        ctr['c19:raise'] += 1
+        if ra[1] != 'ValueError':
+            fails.append('bad-exception: signature(partial) raised %s' % ra[1])
+        for m, K in shapes_for([F], foreign=('zz',)):
+            if really(m, K):
+                fails.append('raise-but-callable: signature(partial(%s, %d args, %s)) raised but the partial accepts (%d,%s)' % (
+                    core.fmt_params(F), n, bound, m, K))
+                break
+        return fails
+    R = P_of(ra[1])
+    ctr['c19:ok'] += 1
+    for m, K in shapes_for([F], foreign=('zz',)):
+        if not non_colliding(R, [F], K):
+            continue
+        a1 = acc(R, m, K)
+        a2 = really(m, K)
+        if a1 != a2:
+            fails.append('inexact: partial(%s, %d args, %s) reported as %s which %s (%d,%s); the partial object %s it' % (
+                core.fmt_params(F), n, bound, core.fmt_params(R), 'accepts' if a1 else 'rejects', m, K,
+                'accepts' if a2 else 'rejects'))
+            break
+    # shape clauses
+    Rn = {p[0]: p for p in R}
+    kinds = {p[0]: p[1] for p in F}
+    pos = [p[0] for p in F if p[1] in ('po', 'pk')]
+    for x in pos[:n]:
+        if x in Rn:
+            fails.append('bound-positional-visible: %s still in %s' % (x, core.fmt_params(R)))
+    hit_pk = [k for k in bound if kinds.get(k) == 'pk']
+    if hit_pk:
+        first = min(pos.index(k) for k in hit_pk)
+        for x in pos[first:]:
+            if x in Rn and Rn[x][1] != 'ko':
+                fails.append('not-keyword-only: %s should be keyword-only in %s' % (x, core.fmt_params(R)))
+        if any(p[1] == 'vp' for p in R):
+            fails.append('varargs-kept: *args still in %s' % core.fmt_params(R))
+    for k, v in bound.items():
+        q = Rn.get(k)
+        if q is None or q[1] != 'ko' or q[2] != v:
+            fails.append('bound-keyword: %s=%s shows as %s in %s' % (k, v, q, core.fmt_params(R)))
+    src = {core.NAMES.name(k): list(v) for k, v in ra[2]}
+    depths = dict(ra[3])
+    for k in bound:
+        if k not in kinds and src.get(k) != [2]:
+            fails.append('absorbed-keyword-source: %s absorbed by **kwargs has sources %s, expected the partial object' % (k, src.get(k)))
+    if depths.get(2) != 0 or depths.get(1) != 1:
+        fails.append('partial-depth: +depths = %s (partial object is 2, function is 1)' % depths)
+    return fails
+
+
+# ----------------------------------------------------------------------------- C04 (algebra part)
+def c04(req, ra, ctr):
+    """forwards(outer, inner, n, *names, flags) == embed(outer, mask(inner, n, *names, ...)) in parameters and
+    provenance, on the real code"""
+    if req[0] != 'forwards':
+        return []
+    import warnings
+    _, n, nms, fl, o, i = req
+    ctr['c04:forwards'] += 1
+    with warnings.catch_warnings():
+        warnings.simplefilter('ignore')
+        try:
+            inner = core.mk_sig(i)
+            if fl[4]:
+                params = [p if p.kind in (p.VAR_POSITIONAL, p.VAR_KEYWORD) else p.replace(default=None)
+                          for p in inner.parameters.values()]
+                inner = inner.replace(parameters=params)
+            m = signatures.mask(inner, n, *nms, hide_args=fl[0], hide_kwargs=fl[1])
+            want = core.canon_sig(signatures.embed(core.mk_sig(o), m, use_varargs=fl[2], use_varkwargs=fl[3]))
+        except Exception as e:  # noqa
+            want = core.canon_exc(e)
+    if want != ra:
+        return ['forwards-is-not-embed-of-mask: %s: forwards gives %s, embed(outer, mask(inner)) gives %s' % (
+            engine.line(req), ra[:4], want[:4])]
+    return []
